@@ -242,13 +242,18 @@ Theorem C17_state_recv_reset_surfaces :
 Proof. exact recv_reset_surfaces. Qed.
 
 (* A connection-level error e (GOAWAY with its debug data, code and initiator; I/O error with kind
-   and message; reset) on a stream that is not closed: a read reports exactly e. *)
+   and message; reset) on a stream that is not closed: the cause records exactly e, poll_reset
+   reports its code, and a read reports exactly e - unless the peer's message was already complete
+   (HalfClosedRemote), then the read ends cleanly. *)
 Theorem C17_state_handle_error_surfaces :
   forall e s,
   is_closed s = false ->
   let s' := fst (handle_error e s) in
-  s' = Closed (CError e) /\
-  ensure_recv_open s' = RProtoErr e /\
+  (is_recv_end_stream s = false ->
+     s' = Closed (CError e) /\ ensure_recv_open s' = RProtoErr e) /\
+  (is_recv_end_stream s = true ->
+     s' = Closed (ErrorAfterEndStream e) /\ ensure_recv_open s' = RBool false /\
+     is_recv_end_stream s' = true) /\
   is_local_error s' = error_is_local e /\
   match e with
   | EReset _ r _ | EGoAway _ r _ => both_modes (fun m => ensure_reason m s') (RReason (Some r))
@@ -260,7 +265,9 @@ Theorem C17_state_go_away_surfaces :
   forall debug r i s,
   is_closed s = false ->
   let s' := fst (handle_error (EGoAway debug r i) s) in
-  ensure_recv_open s' = RProtoErr (EGoAway debug r i) /\
+  (is_recv_end_stream s = false -> ensure_recv_open s' = RProtoErr (EGoAway debug r i)) /\
+  (is_recv_end_stream s = true -> ensure_recv_open s' = RBool false) /\
+  (s' = Closed (CError (EGoAway debug r i)) \/ s' = Closed (ErrorAfterEndStream (EGoAway debug r i))) /\
   both_modes (fun m => ensure_reason m s') (RReason (Some r)) /\
   is_local_error s' = initiator_is_local i.
 Proof. exact go_away_surfaces. Qed.
@@ -269,8 +276,12 @@ Theorem C17_state_recv_eof_surfaces :
   forall s,
   is_closed s = false ->
   let s' := fst (recv_eof s) in
-  s' = Closed (CError (EIo IO_BROKEN_PIPE (Some EOF_MSG))) /\
-  ensure_recv_open s' = RProtoErr (EIo IO_BROKEN_PIPE (Some EOF_MSG)) /\
+  (is_recv_end_stream s = false ->
+     s' = Closed (CError (EIo IO_BROKEN_PIPE (Some EOF_MSG))) /\
+     ensure_recv_open s' = RProtoErr (EIo IO_BROKEN_PIPE (Some EOF_MSG))) /\
+  (is_recv_end_stream s = true ->
+     s' = Closed (ErrorAfterEndStream (EIo IO_BROKEN_PIPE (Some EOF_MSG))) /\
+     ensure_recv_open s' = RBool false /\ is_recv_end_stream s' = true) /\
   both_modes (fun m => ensure_reason m s') (RProtoErr (EIo IO_BROKEN_PIPE (Some EOF_MSG))).
 Proof. exact recv_eof_surfaces. Qed.
 
@@ -346,22 +357,39 @@ Theorem C07_state_closed_never_pending :
   forall s, is_closed s = true -> ensure_recv_open s <> RBool true.
 Proof. exact closed_never_pending. Qed.
 
-(* A stream whose peer had finished its message (is_recv_end_stream) when the connection ends:
-   - already closed (Closed(EndStream), Closed(ErrorAfterEndStream)): untouched, a read still ends
-     cleanly;
-   - HalfClosedRemote (our own half still open): becomes Closed(Error e); the received END_STREAM is
-     forgotten and a read that has drained the buffered frames reports e instead of the clean end. *)
+(* A stream whose peer had finished its message (is_recv_end_stream: HalfClosedRemote,
+   Closed(EndStream), Closed(ErrorAfterEndStream)) keeps the clean end when the connection ends:
+   after handle_error / recv_eof and every later method sequence without a relabelling call
+   (recv_reset(.., queued = true), set_reset, set_scheduled_reset without debug assertions), a read
+   still ends with Ok(false) and is_recv_end_stream still holds; a stream already closed is
+   untouched; a HalfClosedRemote stream records the error as Closed(ErrorAfterEndStream e), and
+   poll_reset reports e's code (Reset, GoAway) or e itself (Io). *)
 Theorem C07_state_completed_message_after_connection_end :
-  forall dbg s o,
+  forall dbg s o os,
   conn_ending o = true -> is_recv_end_stream s = true ->
-  let s' := fst (step dbg s o) in
-  (is_closed s = true -> s' = s /\ ensure_recv_open s' = RBool false /\ is_recv_end_stream s' = true)
-  /\
+  forallb (fun o' => negb (relabels dbg o')) os = true ->
+  let s1 := fst (step dbg s o) in
+  let s2 := run dbg s1 os in
+  s2 = s1 /\ is_closed s2 = true /\
+  is_recv_end_stream s2 = true /\ ensure_recv_open s2 = RBool false /\
+  (is_closed s = true -> s1 = s) /\
   (is_closed s = false ->
-   exists p e, s = HalfClosedRemote p /\ s' = Closed (CError e) /\
-               ensure_recv_open s' = RProtoErr e /\ is_recv_end_stream s' = false /\
-               (o = OHandleError e \/ (o = ORecvEof /\ e = eof_error))).
+   exists p e, s = HalfClosedRemote p /\ s1 = Closed (ErrorAfterEndStream e) /\
+               (o = OHandleError e \/ (o = ORecvEof /\ e = eof_error)) /\
+               forall m, ensure_reason m s2 = reason_report e).
 Proof. exact completed_message_after_connection_end. Qed.
+
+(* The repaired defect: without the HalfClosedRemote arm (handle_error_old = h2 before the fix) the
+   clean end of a completely received message was replaced by the connection error. *)
+Theorem C07_state_fix_needed :
+  ~ (forall e s, is_recv_end_stream s = true ->
+                 ensure_recv_open (fst (handle_error_old e s)) = RBool false) /\
+  (forall e s, is_recv_end_stream s = true ->
+               ensure_recv_open (fst (handle_error e s)) = RBool false) /\
+  (forall e p, is_recv_end_stream (HalfClosedRemote p) = true /\
+               ensure_recv_open (HalfClosedRemote p) = RBool false /\
+               ensure_recv_open (fst (handle_error_old e (HalfClosedRemote p))) = RProtoErr e).
+Proof. exact fix_needed. Qed.
 
 (* in contrast the peer's RST_STREAM keeps the received END_STREAM, in every state *)
 Theorem C07_state_recv_reset_keeps_end_stream :
@@ -374,8 +402,10 @@ Proof. exact recv_reset_keeps_end_stream. Qed.
 Theorem C07_state_nonvacuous :
   (is_recv_end_stream (HalfClosedRemote Streaming) = true /\
    ensure_recv_open (HalfClosedRemote Streaming) = RBool false /\
-   ensure_recv_open (fst (recv_eof (HalfClosedRemote Streaming))) = RProtoErr eof_error /\
-   ensure_recv_open (fst (recv_eof (Closed EndStream))) = RBool false) /\
+   fst (recv_eof (HalfClosedRemote Streaming)) = Closed (ErrorAfterEndStream eof_error) /\
+   ensure_recv_open (fst (recv_eof (HalfClosedRemote Streaming))) = RBool false /\
+   ensure_recv_open (fst (recv_eof (Closed EndStream))) = RBool false /\
+   ensure_recv_open (fst (recv_eof (Open Streaming Streaming))) = RProtoErr eof_error) /\
   run true Idle [OSendOpen false; OSendClose; ORecvOpen false true; ORecvOpen false false; ORecvClose]
     = Closed EndStream.
 Proof. exact (conj ex_completed_then_eof ex_client_exchange). Qed.
